@@ -47,6 +47,8 @@ def budget(tier: str) -> dict[str, Any]:
 
 def gen(rng: Any, tier: str, i: int) -> Any:
     prog = c05.gen(rng, tier, i)
+    while prog["mode"] == "api3":  # 3-phase composition is exercised by C05 only
+        prog = c05.gen(rng, tier, i)
     n = prog["nleaf"]
     while len(prog["vectors"]) < 10:
         prog["vectors"].append([rng.choice(fm.POOL) for _ in range(n)])
